@@ -140,29 +140,40 @@ package sbom
 // ---- look-ups ----
 
 //@ func Node.Purl
-//@   props C11
+//@   props C11, C16
 //@   inline
 //@   assigns \nothing
+//@   ensures [C16:purl] result == (n.Type == 1 ? "" : ((1 in n.Identifiers) ? n.Identifiers[1] : ""))
 
 //@ func Node.HashesMatch
-//@   props C11
+//@   props C11, C16
 //@   inline
 //@   assigns \nothing
+//@   ensures [C16:hashesMatch] result <==> (len(n.Hashes) > 0 && len(th) > 0 && (exists a int32 :: (a in th) && (a in n.Hashes)) && (forall b int32 :: (b in th) && (b in n.Hashes) ==> n.Hashes[b] == th[b]))
+//@   invariant L0: len(n.Hashes) > 0 && len(th) > 0 && (forall c int32 :: (c in _V) ==> (c in th)) && (atLeastOneMatch <==> (exists a int32 :: (a in _V) && (a in n.Hashes))) && (forall b int32 :: (b in _V) && (b in n.Hashes) ==> n.Hashes[b] == th[b])
 
 //@ func NodeList.GetNodesByName
-//@   props C11
+//@   props C11, C16
 //@   inline
 //@   assigns \nothing
+//@   ensures [C16:byName:exact] forall p *Node :: (p in elems(result)) <==> ((p in elems(nl.Nodes)) && p.Name == name)
+//@   invariant L0: forall p *Node :: (p in elems(ret)) <==> ((p in elemsn(nl.Nodes, _i)) && p.Name == name)
 
 //@ func NodeList.GetNodeByID
-//@   props C11
+//@   props C11, C16
 //@   inline
 //@   assigns \nothing
+//@   ensures [C16:byID:nilIffAbsent] (result == nil) <==> !(id in fieldset(nl.Nodes, Id))
+//@   ensures [C16:byID:match] result != nil ==> result.Id == id && (result in elems(nl.Nodes))
+//@   invariant L0: !(id in fieldsetn(nl.Nodes, Id, _i))
 
 //@ func NodeList.GetNodesByIdentifier
-//@   props C11
+//@   props C11, C16
 //@   inline
 //@   assigns \nothing
+//@   ensures [C16:byIdentifier:exact] forall p *Node :: (p in elems(result)) <==> ((p in elems(nl.Nodes)) && p.Identifiers != nil && (idType in p.Identifiers) && p.Identifiers[idType] == v)
+//@   ensures [C16:byIdentifier:type] idType == SoftwareIdentifierTypeFromString(t)
+//@   invariant L0: forall p *Node :: (p in elems(ret)) <==> ((p in elemsn(nl.Nodes, _i)) && p.Identifiers != nil && (idType in p.Identifiers) && p.Identifiers[idType] == v)
 
 //@ func NodeList.GetRootNodes
 //@   props C11
@@ -180,9 +191,12 @@ package sbom
 //@   assigns \nothing
 
 //@ func NodeList.GetEdgeByType
-//@   props C11
+//@   props C11, C16
 //@   inline
 //@   assigns \nothing
+//@   ensures [C16:edgeByType:nilIffAbsent] (result == nil) <==> !(exists e *Edge :: (e in elems(nl.Edges)) && e.From == fromElement && e.Type == t)
+//@   ensures [C16:edgeByType:match] result != nil ==> (result in elems(nl.Edges)) && result.From == fromElement && result.Type == t
+//@   invariant L0: forall e *Edge :: (e in elemsn(nl.Edges, _i)) ==> !(e.From == fromElement && e.Type == t)
 
 //@ func NodeList.GetNodesByPurlType
 //@   props C11
